@@ -48,6 +48,8 @@ class Harness:
         self.leaf_log = {}
         self.ghost = {}
         self.tier = "quick"
+        self.deadline = None
+        self.fallback = True
         self.agg = {}  # native modes: name -> [n_ok, n_fail, first failing witness]
         self.keep_all = True
 
@@ -194,24 +196,47 @@ class Harness:
             if ok:
                 self.results.append((name, "discharged", {"backend": "eval", "t": 0.0}))
             else:
+                fr = self.pctx.confirm_feasible()
+                if fr == z3.unsat:
+                    raise PathInfeasible()
+                if fr != z3.sat:
+                    self.results.append((name, "undecided", {"backend": "z3", "t": time.time() - t0,
+                                                             "why": "clause false on a path whose feasibility the solver could not decide"}))
+                    return ok
                 r, m = self.pctx._check()
                 self.results.append(
                     (name, "violated", {"backend": "eval", "model": self._model_dict(m), "t": time.time() - t0})
                 )
             return ok
         z = as_bool_z(cond)
+        if self.deadline is not None and time.time() > self.deadline:
+            self.results.append((name, "undecided", {"backend": "none", "t": 0.0, "why": "case deadline reached before this obligation"}))
+            return False
         st, m = self.pctx.prove(z)
         dt = time.time() - t0
         if st == "valid":
             self.results.append((name, "discharged", {"backend": "z3", "t": dt}))
             return True
         if st == "refuted":
+            fr = self.pctx.confirm_feasible()
+            if fr == z3.unsat:
+                raise PathInfeasible()
+            if fr != z3.sat:
+                self.results.append((name, "undecided", {"backend": "z3", "t": dt,
+                                                         "why": "refuted on a path whose feasibility the solver could not decide"}))
+                return False
             self.results.append((name, "violated", {"backend": "z3", "model": self._model_dict(m), "t": dt}))
             return False
         # unknown: hand the query to the fall-back solvers
+        if not self.fallback:
+            self.results.append((name, "undecided", {"backend": "z3", "t": dt, "why": "solver unknown"}))
+            return False
         from .backends import fallback_prove
 
-        st2, backend, model = fallback_prove(self.pctx, z)
+        budget = 60 if self.deadline is None else max(5, min(60, int(self.deadline - time.time())))
+        if self.tier == "quick":
+            budget = min(budget, 20)
+        st2, backend, model = fallback_prove(self.pctx, z, budget)
         dt = time.time() - t0
         if st2 == "valid":
             self.results.append((name, "discharged", {"backend": backend, "t": dt}))
@@ -221,6 +246,35 @@ class Harness:
             return False
         self.results.append((name, "undecided", {"backend": "z3+" + backend, "t": dt, "why": "solver unknown"}))
         return False
+
+    def lemma(self, name, cond):
+        """Prove `cond` under the path condition and, if discharged, add it to the path condition
+        (a cut: sound because only proved facts are added; it only helps later obligations)."""
+        ok = self.check(name, cond)
+        if ok and self.mode == "symbolic" and is_sym(cond):
+            self.pctx.add(as_bool_z(cond))
+        return ok
+
+    def hint(self, name, cond, timeout_ms=5000):
+        """Optional lemma: if `cond` can be proved it is recorded as a discharged obligation and added
+        to the path condition; if not, nothing happens (a hint never fails a check)."""
+        if self.mode != "symbolic" or not is_sym(cond):
+            return bool(cond) if not is_sym(cond) else False
+        if self.deadline is not None and time.time() > self.deadline:
+            return False
+        t0 = time.time()
+        z = as_bool_z(cond)
+        st, _m = self.pctx.prove(z, timeout_ms=timeout_ms)
+        if st == "valid":
+            self.results.append((name, "discharged", {"backend": "z3", "t": time.time() - t0}))
+            self.pctx.add(z)
+            return True
+        return False
+
+    def watch(self, qualname_suffix, callback):
+        """Ghost observation of the locals of an interpreted function (symbolic modes only)."""
+        if self.I is not None:
+            self.I.watch[qualname_suffix] = callback
 
     def cover(self, name):
         """Reachability witness: this program point was reached on a feasible path."""
@@ -262,7 +316,7 @@ def _reset_globals():
     rv.errors.RAISE_CONTROLLER_VALUE_ERRORS = True
 
 
-def explore(body, case, timeout_ms=10000, max_paths=20000, deadline=None, tier="quick"):
+def explore(body, case, timeout_ms=10000, max_paths=20000, deadline=None, tier="quick", fallback=True):
     """Run `body(H, case)` on every feasible path.  -> (list[PathRecord], Stats, Interp)"""
     stats = Stats()
     interp = Interp()
@@ -283,6 +337,8 @@ def explore(body, case, timeout_ms=10000, max_paths=20000, deadline=None, tier="
         _reset_globals()
         H = Harness("symbolic", pctx, interp)
         H.tier = tier
+        H.deadline = deadline
+        H.fallback = fallback
         rec = PathRecord()
         try:
             body(H, case)
@@ -303,10 +359,15 @@ def explore(body, case, timeout_ms=10000, max_paths=20000, deadline=None, tier="
             rec.detail = f"{type(e).__name__}: {e}"
             rec.tb = tb
             try:
-                r, m = pctx._check()
-                rec.exc_model = H._model_dict(m) if r == z3.sat else None
-                if r == z3.unsat:
+                fr = pctx.confirm_feasible()
+                if fr == z3.unsat:
                     rec.status = "infeasible"
+                elif fr != z3.sat:
+                    rec.status = "unsupported"
+                    rec.detail = f"exception {rec.detail} on a path whose feasibility the solver could not decide"
+                else:
+                    r, m = pctx._check()
+                    rec.exc_model = H._model_dict(m) if r == z3.sat else None
             except Exception:
                 rec.exc_model = None
         finally:
